@@ -126,6 +126,36 @@ out += ["", "## Missed at first, and what was strengthened", "",
         "  `MsgCreatePosition` / `MsgIncreaseLiquidity` on a discarded branch of the state, so every point meets the same pool states.",
         "* **C19-r4-2** (`GetAllPublishedData`, shared by the query and `ExportGenesis`, stops after 1000 items): beyond what a history of practical",
         "  length shows. The genesis fact extractor now lists every place on the ExportGenesis / InitGenesis call paths where a walk can end early",
-        "  (a walk callback answering stop without an error, a `break` out of a loop); `C19.genesis_paths_never_stop_early` proves the list empty."]
+        "  (a walk callback answering stop without an error, a `break` out of a loop); `C19.genesis_paths_never_stop_early` proves the list empty.",
+        "",
+        "## Round 5 (`Cnn-r5-k`): error handling, cleanup duties, exact deadlines, second use, staking events, several denoms",
+        "",
+        "A fifth set of forty (agents told the eight earlier changes per property). First evaluation (`r5-first-evaluation.log`): 34 of 40",
+        "reported by the quick tier, 2 only by the thorough tier, 4 missed. The round also produced three GENUINE defects of the unchanged",
+        "tree, noticed by seeding agents while reading the code and reproduced on the real application by new `halt` scenarios: a DA",
+        "tally dividing by zero after a genesis import, `Int64()` overflow for a large valid replication factor, and an unbonding to a",
+        "recipient the bank refuses to credit stopping the chain three weeks later (all fixed: 3f57b5b, fe8f03d, 8270a6b; DESIGN §6).",
+        "The patches of C01-r5-1, C07-r4-1 and C08-1 were re-based on those fixes (`patch.orig.diff` keeps the original).",
+        "",
+        "* **C01-r5-2** (the share-class reward handler forwards the WHOLE module balance, so matured unbonding tokens are swept and the",
+        "  payout fails in the end-blocker): made before fix 8270a6b; with the fix a failing payout no longer stops the chain, so this",
+        "  change does not break C01 any more — it breaks C10 (the unbonding is not paid), where the quick tier reports it",
+        "  (`undelegate_paid_once`). The C01 row stays `missed` on purpose: nothing to report there.",
+        "* **C01-r5-1** (rejected item: the divisor becomes the number of CORRECT challengers, zero when every challenger flagged a safe",
+        "  shard): thorough-only. The `da` generator now issues blanket challenges (every shard flagged) one time in five, counts the case",
+        "  (`tally.rejected_every_challenger_flagged_a_safe_shard`), and C01's quick tier runs 60 `da` histories.",
+        "* **C11-r5-1** (a failed re-send inside a timeout is logged and swallowed): the failure needs `SendPacket` to fail, which the",
+        "  localhost channel never does. The `ibc` suite now delivers one timeout in five while the channel end is CLOSED (fault injection",
+        "  at the core-IBC boundary, `send=fail` in the trace, `IbcSwap.opTimeoutNoSend` in the model): the message must fail as a whole and",
+        "  change nothing (`failed_resend_changes_nothing`), and the history must still end with one acknowledgement and no records.",
+        "* **C12-r5-2** (`return nil` for `continue` in `checkTokensSendable` when a denom has nothing locked): a denom outside the original",
+        "  funds cannot be sent from a lockup at all (`collections: not found`), so the multi-denom scenario never reached the loop. New",
+        "  scenario `lk2TwoLockedDenoms`: the account is funded at Init with a dust denom that sorts first plus the main denom; past half of",
+        "  the schedule the dust coin is fully unlocked by rounding and a send naming both must still keep the locked part of the main denom.",
+        "* **C15-r5-1** (`MustAccAddressFromBech32` on the interface provider, which only the message's ValidateBasic checks): thorough-only.",
+        "  Executable IBC memos now carry a provider that is not an address of this chain one time in nine.",
+        "* **C20-r5-2** (`UnmarshalVerifyingKey` keeps the first key it ever decoded): new scenario `rsKeyRotation` — governance installs a",
+        "  fresh `groth16.Setup` pair on a chain that has verified proofs before; new-key proofs must be accepted for their own shard only,",
+        "  old-key proofs refused."]
 open(os.path.join(VERIF, "seeded", "README.md"), "w").write("\n".join(out) + "\n")
 print(len(rows), "rows;", sum("**caught**" in r for r in rows), "caught")
